@@ -30,15 +30,22 @@ fn unemb(x: u32, w: i64, bad: &mut bool) -> i64 {
         None => { *bad = true; -1 - x as i64 }
     }
 }
-fn vals_of(a: &J, w: i64) -> Vec<Value> {
-    a.as_array().unwrap().iter().map(|it| Value { start: emb(it[0].as_i64().unwrap(), w), end: emb(it[1].as_i64().unwrap(), w), value: it[2].as_i64().unwrap() as f32 }).collect()
+// "vexp": every value is multiplied by 2^vexp on the way in and divided on the way out (exact for the small integers
+// used): a merger must treat very small and very large magnitudes like any other number
+fn vals_of_x(a: &J, w: i64, vexp: i32) -> Vec<Value> {
+    let k = (2.0f32).powi(vexp);
+    a.as_array().unwrap().iter().map(|it| Value { start: emb(it[0].as_i64().unwrap(), w), end: emb(it[1].as_i64().unwrap(), w), value: it[2].as_i64().unwrap() as f32 * k }).collect()
 }
-fn out_of(v: &[Value], w: i64, bad: &mut bool, nonint: &mut bool) -> J {
+fn vals_of(a: &J, w: i64) -> Vec<Value> { vals_of_x(a, w, 0) }
+fn out_of_x(v: &[Value], w: i64, bad: &mut bool, nonint: &mut bool, vexp: i32) -> J {
+    let k = (2.0f32).powi(vexp);
     J::Array(v.iter().map(|x| {
-        if x.value.fract() != 0.0 { *nonint = true; }
-        json!([unemb(x.start, w, bad), unemb(x.end, w, bad), x.value as i64])
+        let y = x.value / k;
+        if y.fract() != 0.0 { *nonint = true; }
+        json!([unemb(x.start, w, bad), unemb(x.end, w, bad), y as i64])
     }).collect())
 }
+fn out_of(v: &[Value], w: i64, bad: &mut bool, nonint: &mut bool) -> J { out_of_x(v, w, bad, nonint, 0) }
 
 pub fn run_case(c: &J) -> J {
     let w = c["W"].as_i64().unwrap_or(0);
@@ -46,10 +53,11 @@ pub fn run_case(c: &J) -> J {
     let mut nonint = false;
     match c["mode"].as_str().unwrap() {
         "many" => {
-            let streams: Vec<_> = c["streams"].as_array().unwrap().iter().map(|s| vals_of(s, w).into_iter().map(Ok::<Value, std::io::Error>)).collect();
+            let vexp = c["vexp"].as_i64().unwrap_or(0) as i32;
+            let streams: Vec<_> = c["streams"].as_array().unwrap().iter().map(|s| vals_of_x(s, w, vexp).into_iter().map(Ok::<Value, std::io::Error>)).collect();
             let out: Result<Vec<Value>, _> = merge_sections_many(streams).collect();
             match out {
-                Ok(v) => { let o = out_of(&v, w, &mut bad, &mut nonint); json!({"result": "ok", "out": o, "unmapped": bad as i64, "nonint": nonint as i64}) }
+                Ok(v) => { let o = out_of_x(&v, w, &mut bad, &mut nonint, vexp); json!({"result": "ok", "out": o, "unmapped": bad as i64, "nonint": nonint as i64}) }
                 Err(e) => json!({"result": "err", "err": e.to_string()}),
             }
         }
